@@ -1,7 +1,7 @@
 (* C13 — timeline.  Headline theorems only; lemmas in Proofs/TimelineProofs.v; model Model/Timeline.v.
    Times are 10 s slots since year 1; st_get calls tl_generate on the range rounded by s_normalize_unix. *)
 From Pyro Require Import Model.Base Model.Tree Model.Segment Model.Timeline Model.Storage Proofs.SegmentProofs Proofs.SegStruct
-  Proofs.TimelineProofs Proofs.StorageProofs Proofs.StorageCounters.
+  Proofs.TimelineProofs Proofs.StorageProofs Proofs.StorageCounters Proofs.TimelineCoarse.
 Local Open Scope Z_scope.
 
 Theorem C13_shape_start : forall a b, tl_st (tl_generate a b) = a.
@@ -111,8 +111,57 @@ Theorem C13_entries : forall K pis sel from until out,
 Proof. exact timeline_entries. Qed.
 Print Assumptions C13_entries.
 
-(* Not proved: the coarse buckets (tl_lvl >= 1), where an entry is assembled from the nodes one level below
-   the bucket size, and uploads spanning 2..9 slots (binary64 shares); both are carried by CorrC13 only. *)
+(* C13_entries for the coarse buckets (tl_lvl = dl >= 1: 100 s, 1000 s, ... buckets of longer ranges) when the
+   rounded range start lies on the bucket grid (a mod 10^dl = 0), single-slot uploads.  One series: entry j is
+   0 when no upload falls into bucket j = [a + j*10^dl, a + (j+1)*10^dl), else 1 + the samples uploaded into it
+   (cntj / smpj = number / samples of the writes whose slot lies in the bucket) *)
+Theorem C13_entries_coarse_single_series : forall K ws a b, Forall (valid_write K) ws -> single_slot ws ->
+  Forall (fun w => (w_smp w < 2 ^ 53)%N) ws -> a < b ->
+  let dl := tl_lvl (tl_generate a b) in
+  (1 <= dl)%nat -> a mod pow10 dl = 0 ->
+  forall j, (j < length (tl_samples (tl_generate a b)))%nat ->
+  nth j (tl_samples (tl_populate (fst (run_writes ws)) (tl_generate a b))) 0%N =
+  if cntj ws (Lj a dl j) (Uj a dl j) =? 0 then 0%N else (1 + Z.to_N (smpj ws (Lj a dl j) (Uj a dl j)))%N.
+Proof. exact coarse_single_series. Qed.
+Print Assumptions C13_entries_coarse_single_series.
+
+(* ... and at storage level, summed over all matching series: [ups] = the uploads into matching series that
+   fall into bucket j *)
+Theorem C13_entries_coarse : forall K pis sel from until out,
+  Forall (single_put K) pis -> Forall small_total pis -> key_consistent pis ->
+  let ab := s_normalize_unix (from, until) in
+  let dl := tl_lvl (tl_generate (fst ab) (snd ab)) in
+  fst ab < snd ab -> (1 <= dl)%nat -> fst ab mod pow10 dl = 0 ->
+  st_get sel from until (st_after pis) = Some out ->
+  forall j, (j < length (tl_samples (go_timeline out)))%nat ->
+    let ups := filter (fun pi => sel_matches sel (pi_sid pi) && up_in (Lj (fst ab) dl j) (Uj (fst ab) dl j) pi) pis in
+    nth j (tl_samples (go_timeline out)) 0%N =
+    match ups with [] => 0%N | _ => (1 + sumN (map (fun pi => t_total (pi_tree pi)) ups))%N end.
+Proof. exact timeline_entries_coarse. Qed.
+Print Assumptions C13_entries_coarse.
+
+(* Not proved: uploads spanning 2..9 slots (binary64 shares uint64(float64(n) * RN(m/span)); the lemma
+   share_exact_small_span is not available), and range starts off the bucket grid (outside the property). *)
+
+Example C13_entries_coarse_nonvacuous :
+  let mk := fun (f : Z) (v : N) =>
+    {| pi_sid := {| sid_key := [97;123;125]%N; sid_app := [97]%N; sid_tags := [] |}; pi_from := f; pi_until := f + 10;
+       pi_tree := t_insert [97]%N v t_empty;
+       pi_meta := {| m_spy := []; m_rate := 100%N; m_units := []; m_agg := [115;117;109]%N |} |} in
+  let sel := {| sid_key := [97;123;125]%N; sid_app := [97]%N; sid_tags := [] |} in
+  let pis := [mk 1600000030 5%N; mk 1600000070 7%N; mk 1600000250 2%N] in
+  Forall (single_put 63) pis /\ Forall small_total pis /\
+  match st_get sel 1600000000 1600102500 (st_after pis) with
+  | Some out => tl_lvl (go_timeline out) = 1%nat /\ length (tl_samples (go_timeline out)) = 1025%nat /\
+                firstn 4 (tl_samples (go_timeline out)) = [13; 0; 3; 0]%N
+  | None => False
+  end.
+Proof.
+  cbv zeta. split; [|split].
+  - repeat (apply Forall_cons; [split; [apply exact_putb_ok; vm_compute; reflexivity|vm_compute; reflexivity]|]). apply Forall_nil.
+  - repeat (apply Forall_cons; [vm_compute; reflexivity|]). apply Forall_nil.
+  - vm_compute. repeat split.
+Qed.
 
 Example C13_entries_storage_nonvacuous :
   let mk := fun (s : sid) (f : Z) (v : N) =>
